@@ -1,3 +1,173 @@
 import Model
 import Spec
 import Gen
+import Proofs.Encode
+import Proofs.Header
+/-!
+  C02 — wire images match an independent RFC 6733 reference codec; header length bookkeeping;
+  closed forms for the arithmetic kernels regenerated from the source (`Gen.Arith`), for ALL
+  arguments (these replace the 2^24 / 2^32 sweeps by theorems).
+-/
+namespace DV.Props.C02
+open DV DV.Spec
+
+/-! ### arithmetic kernels, as translated from the Go source by the extractor -/
+
+/-- `datatype.pad4`: `n + ((4 - n) & 3)` rounds every non-negative n up to a multiple of four -/
+theorem C02_pad4 (n : Nat) : Gen.pad4 (n : Int) = ((DV.pad4 n : Nat) : Int) := by
+  unfold Gen.pad4 DV.pad4; omega
+
+theorem C02_pad4_spec (n : Nat) : DV.pad4 n % 4 = 0 ∧ n ≤ DV.pad4 n ∧ DV.pad4 n < n + 4 := by
+  unfold DV.pad4; omega
+
+theorem bor_disjoint (a b k : Nat) (hb : b < 2 ^ k) : (a * 2 ^ k) ||| b = a * 2 ^ k + b := by
+  rw [← Nat.shiftLeft_eq, Nat.shiftLeft_add_eq_or_of_lt hb]
+
+/-- `uint24to32`: `uint32(b[0])<<16 | uint32(b[1])<<8 | uint32(b[2])` is the big-endian value -/
+theorem C02_uint24to32 (b0 b1 b2 : Nat) (h0 : b0 < 256) (h1 : b1 < 256) (h2 : b2 < 256) :
+    Gen.uint24to32 b0 b1 b2 = ((b0 * 65536 + b1 * 256 + b2 : Nat) : Int) := by
+  unfold Gen.uint24to32 Gen.bor
+  have e0 : ((b0 : Int) % 4294967296 * 65536).toNat = b0 * 2 ^ 16 := by omega
+  have e1 : ((b1 : Int) % 4294967296 * 256).toNat = b1 * 2 ^ 8 := by omega
+  have e2 : ((b2 : Int) % 4294967296).toNat = b2 := by omega
+  rw [e0, e1, e2]
+  have s1 : b0 * 2 ^ 16 ||| b1 * 2 ^ 8 = (b0 * 2 ^ 8 + b1) * 2 ^ 8 := by
+    have : b0 * 2 ^ 16 = (b0 * 2 ^ 8) * 2 ^ 8 := by omega
+    rw [this, ← Nat.shiftLeft_eq, ← Nat.shiftLeft_eq (b1), ← Nat.shiftLeft_eq (b0 * 2 ^ 8 + b1)]
+    rw [← Nat.shiftLeft_or_distrib]
+    congr 1
+    exact bor_disjoint b0 b1 8 (by omega)
+  simp only [s1]
+  have e3 : (Int.ofNat ((b0 * 2 ^ 8 + b1) * 2 ^ 8)).toNat = (b0 * 2 ^ 8 + b1) * 2 ^ 8 := rfl
+  rw [e3, bor_disjoint _ b2 8 (by omega)]
+  exact congrArg Int.ofNat (by omega)
+
+/-- `uint32to24` emits the three low-order bytes, most significant first -/
+theorem C02_uint32to24 (n : Nat) :
+    Gen.uint32to24 n = [((n / 65536 % 256 : Nat) : Int), ((n / 256 % 256 : Nat) : Int), ((n % 256 : Nat) : Int)] := by
+  unfold Gen.uint32to24
+  simp only [List.cons.injEq, and_true]
+  refine ⟨by omega, by omega, by omega⟩
+
+/-- the 24-bit conversion is a bijection on [0, 2^24): decode ∘ encode = id, for every n -/
+theorem C02_uint24_roundtrip (n : Nat) (h : n < 16777216) :
+    Gen.uint24to32 (n / 65536 % 256 : Nat) (n / 256 % 256 : Nat) (n % 256 : Nat) = (n : Int) := by
+  rw [C02_uint24to32 _ _ _ (by omega) (by omega) (by omega)]
+  omega
+
+/-- the model's `be 3` / `rd` agree with it -/
+theorem C02_be3_rd (n : Nat) : rd (be 3 n) = n % 16777216 := by rw [rd_be]
+
+/-- `Time.Serialize`: the value written is (unix + 2208988800) mod 2^32 -/
+theorem C02_time_enc (u : Int) :
+    Gen.timeEnc u Gen.rfc868offset % 4294967296 = (u + 2208988800) % 4294967296 := by
+  unfold Gen.timeEnc Gen.rfc868offset; omega
+
+/-- `DecodeTime` inverts it on the whole two-era window, for every second -/
+theorem C02_time_roundtrip (u : Int) (h1 : -61505152 ≤ u) (h2 : u < 4233462144) :
+    let n := (u + 2208988800) % 4294967296
+    (if n < 2147483648 then Gen.timeDecLow n Gen.rfc868offset Gen.rfc2030offset
+     else Gen.timeDecHigh n Gen.rfc868offset Gen.rfc2030offset) = u := by
+  unfold Gen.timeDecLow Gen.timeDecHigh Gen.rfc868offset Gen.rfc2030offset
+  simp only
+  split <;> omega
+
+/-- the model's time codec is the regenerated one -/
+theorem C02_time_model (u : Int) :
+    encTime u = be 4 ((Gen.timeEnc u Gen.rfc868offset % 4294967296).toNat) := by
+  unfold encTime; rw [C02_time_enc]; rfl
+
+/-! ### the wire image is the RFC 6733 image -/
+
+/-- For every tree of canonical values (every data type, any nesting, any flags, vendor ids):
+    the bytes the library emits for the AVPs are exactly those of the independent RFC encoder,
+    and `Len()` is their number. -/
+theorem C02_ref_enc_avps (as : List AVP) (h : canonL as = true) :
+    encL as = emitL as ∧ lenL as = sizeL as := encL_eq as h
+
+/-- Header: version, 24-bit length, flags, 24-bit code, application, hop-by-hop, end-to-end. -/
+theorem C02_ref_enc_msg (m : Msg) (h : canonL m.avps = true) (hv : m.hdr.version = 1)
+    (hl : m.hdr.len = m.len) :
+    m.enc = Spec.encode m.hdr.flags m.hdr.cmd m.hdr.app m.hdr.hbh m.hdr.e2e m.avps := by
+  have := encL_eq m.avps h
+  unfold Msg.enc Header.enc Spec.encode
+  rw [hv, hl, Msg.len, this.1, this.2]
+  simp
+
+/-- message length = 20 + the padded AVPs, each a multiple of four -/
+theorem C02_len_mod4 (as : List AVP) (h : canonL as = true) : (20 + lenL as) % 4 = 0 := by
+  have := (encL_eq as h).2
+  have := sizeL_mod as
+  omega
+
+theorem lenL_append : ∀ (xs ys : List AVP), lenL (xs ++ ys) = lenL xs + lenL ys
+  | [], ys => by simp [lenL]
+  | x :: r, ys => by simp [lenL, lenL_append r ys, Nat.add_assoc]
+
+/-- one assembly operation of the message API -/
+inductive Op where
+  | add (a : AVP)      -- Message.NewAVP / Message.AddAVP
+  | insert (a : AVP)   -- Message.InsertAVP
+  | marshal (as : List AVP) -- Message.Marshal (replaces the AVPs, recomputes the length)
+
+def Op.apply (m : Msg) : Op → Msg
+  | .add a => m.addAVP a
+  | .insert a => m.insertAVP a
+  | .marshal as => { m with hdr := { m.hdr with len := (20 + lenL as) % 4294967296 }, avps := as }
+
+/-- Bookkeeping: after ANY sequence of add / insert / marshal operations on a message whose
+    header length was right, the header length equals the serialised size (as long as that
+    size fits the uint32 field). Induction over the operation list. -/
+theorem C02_length (ops : List Op) (m : Msg) (h0 : m.hdr.len = m.len)
+    (hfit : ∀ k, ((ops.take k).foldl Op.apply m).len < 4294967296) :
+    (ops.foldl Op.apply m).hdr.len = (ops.foldl Op.apply m).len := by
+  induction ops generalizing m with
+  | nil => simpa using h0
+  | cons op r ih =>
+    simp only [List.foldl_cons]
+    apply ih
+    · have h1 := hfit 1
+      simp only [List.take_succ_cons, List.take_zero, List.foldl_cons, List.foldl_nil] at h1
+      cases op with
+      | add a =>
+        simp only [Op.apply, Msg.addAVP, Msg.len, lenL_append, lenL] at h1 ⊢
+        rw [h0, Msg.len]; omega
+      | insert a =>
+        simp only [Op.apply, Msg.insertAVP, Msg.len, lenL] at h1 ⊢
+        rw [h0, Msg.len]; omega
+      | marshal as =>
+        simp only [Op.apply, Msg.len] at h1 ⊢
+        omega
+    · intro k
+      have := hfit (k + 1)
+      simpa [List.take_succ_cons] using this
+
+/-- a fresh message (`NewMessage`) satisfies the premise -/
+theorem C02_new_message (cmd flags app hbh e2e r1 r2 : Nat) :
+    (newMessage cmd flags app hbh e2e r1 r2).hdr.len = (newMessage cmd flags app hbh e2e r1 r2).len ∧
+    (newMessage cmd flags app hbh e2e r1 r2).hdr.version = 1 := by
+  simp [newMessage, Msg.len, lenL]
+
+/-! ### header layout -/
+
+/-- the field offsets read off `Header.SerializeTo` and `Header.DecodeFromBytes` are the RFC's -/
+theorem C02_layout : Gen.hdrLayoutEnc = rfcHeaderLayout ∧ Gen.hdrLayoutDec = rfcHeaderLayout ∧
+    Gen.avpLayoutEnc = [("Code", 0, 4), ("Flags", 4, 5), ("Data", 5, 8), ("VendorID", 8, 12)] ∧
+    Gen.avpLayoutDec = [("Code", 0, 4), ("Flags", 4, 5), ("Length", 5, 8), ("VendorID", 8, 12)] := by
+  decide
+
+theorem C02_gen : Gen.rfc868offset = rfc868 ∧ Gen.rfc2030offset = rfc2030 ∧ Gen.HeaderLength = 20 ∧
+    Gen.Vbit = 128 ∧ Gen.typeIds.map (·.2) = List.range 19 := by decide
+
+/-- `DecodeHeader (Header.Serialize h) = h` for every in-range header -/
+theorem C02_header_roundtrip (h : Header) (hv : h.version < 256) (hl : h.len < 16777216) (hf : h.flags < 256)
+    (hc : h.cmd < 16777216) (ha : h.app < 4294967296) (hh : h.hbh < 4294967296) (he : h.e2e < 4294967296) :
+    decodeHeader h.enc = .ok h := header_roundtrip h hv hl hf hc ha hh he
+
+/-- non-vacuity: a message with a vendor-specific grouped AVP, an odd-length string, an IPv6
+    address and a pre-epoch time satisfies the hypotheses of `C02_ref_enc_msg` -/
+example :
+    canonL [.mk 260 192 0 10415 (.group [.mk 264 64 0 0 (.str 2 [104, 105, 33]), .mk 55 0 0 0 (.time (-1))]),
+            .mk 257 64 0 0 (.addr [32,1,13,184,0,0,0,0,0,0,0,0,0,0,0,1])] = true := by decide
+
+end DV.Props.C02
